@@ -54,7 +54,18 @@ type LimLine struct {
 
 const attPrefix = "image/jpeg:http://x.co/"
 
+// w: bytes per character (1, 2, 4), or a content class: 7 = digits only (reads as a number), 8 = starts with a date
 func textOf(n, w int) string {
+	switch w {
+	case 7:
+		return strings.Repeat("7", n)
+	case 8:
+		d := "12-06-1990 10:30 "
+		if n <= len(d) {
+			return d[:n]
+		}
+		return d + strings.Repeat("x", n-len(d))
+	}
 	ch := map[int]string{1: "a", 2: "é", 4: "😀"}[w]
 	return strings.Repeat(ch, n)
 }
@@ -90,7 +101,11 @@ func c05Limits(args []string) error {
 		if lc.Sink == "result_input" {
 			vias = []string{"input"}
 		}
-		for _, w := range []int{1, 2, 4} {
+		widths := []int{1, 2, 4}
+		if lc.Sink == "field" || lc.Sink == "name" || lc.Sink == "result_set" || lc.Sink == "result_input" {
+			widths = append(widths, 7, 8) // values that also parse as a number / a date
+		}
+		for _, w := range widths {
 			for _, via := range vias {
 				if via == "literal" && lc.N == 0 {
 					continue // an empty literal is not a valid definition
